@@ -357,6 +357,18 @@ def execute(plan: dict[str, Any]) -> dict[str, Any]:
         return _execute_concurrent(plan)
     if plan.get("mode") == "concurrent-parse":
         return _execute_churn(plan)
+    if env.package_makes_threads():
+        # the library runs threads of its own: the whole history of parses is ONE simulated caller
+        from detsim.sched import as_one_caller
+
+        return as_one_caller(PROP, lambda: _execute_sequential(plan), int(plan["seed"]), env.PKG_DIR,
+                             preempt_lines=not env.package_uses_locks_or_threads())
+    return _execute_sequential(plan)
+
+
+def _execute_sequential(plan: dict[str, Any]) -> dict[str, Any]:
+    from detsim import world
+
     world.install_log_sink()
     import hashlib
 
